@@ -26,12 +26,16 @@ type vG struct {
 // branch outcomes: the k-th evaluation of branch b picks targets[decisions[b][k]]
 type vDecider struct {
 	g     *vG
+	limit int // when > 0: evaluations number >= limit of any branch pick its last target (bounds cycles)
 	taken map[int][]int
 	cntR  map[int]int // evaluations seen by the real graph
 	cntM  map[int]int // evaluations seen by the reference
 }
 
 func (d *vDecider) get(b, k int) int {
+	if d.limit > 0 && k >= d.limit {
+		return len(d.g.branches[b].targets) - 1
+	}
 	for len(d.taken[b]) <= k {
 		d.taken[b] = append(d.taken[b], vrange("br", 0, len(d.g.branches[b].targets)-1))
 	}
